@@ -376,7 +376,7 @@ def cmd_review(a):
 
 EXTRA = {"C13-A": ["C05"], "C08-A": ["C01"], "C09-A": ["C02"], "C09-B": ["C06"], "C13-D": ["C10"], "C14-C": ["C07", "C08", "C01"], "C07-C": ["C08", "C01"],
          "C08-C": ["C15"], "C09-C": ["C14"], "C09-D": ["C02"], "C12-D": ["C10"], "C05-E": ["C01"], "C09-F": ["C03"], "C13-E": ["C18"], "C18-E": ["C15"],
-         "C01-I": ["C05"], "C14-J": ["C18"], "C13-J": ["C10"]}
+         "C01-I": ["C05"], "C14-J": ["C18"], "C13-J": ["C10"], "C13-L": ["C16"], "C13-K": ["C11"], "C09-K": ["C06"]}
 
 
 def cmd_matrix(a):
